@@ -7,6 +7,8 @@ callable table and the canonicalisation of tools/k2.py; adds
            library's own compositions via / typed_via / on / with_scheduler_affinity: the C++ side calls the
            real unifex function, the model side uses the Gallina definition over finally / sequence /
            with_query_value / unstoppable / schedule;
+  stage 4  value-copy fault points: every value is a tracked k2v2::payload; a script completion `L0:t5` sends one whose
+           copy / move throws when stored (model outcome OValT); live payload objects are counted (`plive`, C02).
   stage 3  more algorithms: let_value_with_stop_source (+ leaves whose callable requests stop on a chosen
            enclosing source), stop_if_requested, just_from, defer, repeat_effect_until (predicate = bit
            list), retry_when (n granted retries), into_variant.
@@ -108,6 +110,28 @@ def lvalue_lete(e, lv=False):
     return any(lvalue_lete(x, lv) for x in subexprs(e))
 
 
+def throw_hits_noexcept(e):
+    """Finding (stage 4): let_value's successor_receiver::set_value is declared noexcept but forwards to a receiver
+    whose set_value may throw (into_variant's tuple construction, let_error's by-value parameters, stop_when's
+    result_ emplace): a value with a throwing move sent by a let_value successor (also defer = let_value(just(), f))
+    into such a consumer ends in std::terminate.  True if e contains a throwing consumer whose by-reference chain
+    reaches a let_value successor before a catching forwarder (the generator then draws another expression)."""
+    def chain(x):
+        k = x[0]
+        if k in ("uerr", "udone"): return chain(x[2])
+        if k == "lvss": return chain(x[2])
+        if k == "letd": return chain(x[1]) or chain(x[2])
+        if k == "retry": return chain(x[2])
+        if k == "letv": return True
+        if k == "defer": return True
+        return False
+    k = e[0]
+    if k == "intov" and chain(e[1]): return True
+    if k == "lete" and (chain(e[1]) or chain(e[2])): return True
+    if k == "swhen" and chain(e[1]): return True
+    return any(throw_hits_noexcept(x) for x in subexprs(e))
+
+
 def subexprs(e):
     return [x for x in e[1:] if isinstance(x, tuple) and x and isinstance(x[0], str) and x[0] not in FNS]
 
@@ -178,35 +202,38 @@ def _cpp(e, bound, ss):
         return "k2v2::retry(%s, %d, [=](int %s) { return %s; })" % (to_cpp(e[2]), e[1], x, to_cpp(e[3], (x,) + bound))
     if k == "leaf": return "k2v2::leaf{%d,false}" % e[1]
     if k == "leafn": return "k2v2::leaf{%d,true}" % e[1]
-    if k in ("just", "jerr", "jdone", "var"): return k2.to_cpp(e, bound)
+    if k == "just": return "k2v2::just(%d)" % e[1]
+    if k == "jerr": return "k2v2::inl{'e',%d}" % e[1]
+    if k == "jdone": return "k2v2::inl{'d',0}"
+    if k == "var": return "k2v2::just(int(%s))" % bound[e[1]]
     if k == "sched": return "k2v2::sched_leaf(%d)" % e[2]
     if k == "withsched": return "unifex::with_query_value(%s, unifex::get_scheduler, k2v2::sched{%d})" % (to_cpp(e[2], bound), e[1])
     if k == "via": return "unifex::via(%s, k2v2::sched{%d})" % (to_cpp(e[3], bound), e[2])
     if k == "tvia": return "unifex::typed_via(%s, k2v2::sched{%d})" % (to_cpp(e[3], bound), e[2])
     if k == "on": return "unifex::on(k2v2::sched{%d}, %s)" % (e[2], to_cpp(e[3], bound))
     if k == "wsav": return "k2v2::wsa(%s, k2v2::sched{%d})" % (to_cpp(e[3], bound), e[2])
-    if k == "then": return "unifex::then(%s, %s)" % (to_cpp(e[2], bound), k2.cpp_fn(e[1]))
-    if k == "uerr": return "k2::uerr(%s, %s)" % (to_cpp(e[2], bound), k2.cpp_fn(e[1]))
-    if k == "udone": return "k2::udone(%s, %s)" % (to_cpp(e[2], bound), k2.cpp_fn(e[1]))
+    if k == "then": return "k2v2::thenf(%s, %s)" % (to_cpp(e[2], bound), k2.cpp_fn(e[1]))
+    if k == "uerr": return "k2v2::uerr(%s, %s)" % (to_cpp(e[2], bound), k2.cpp_fn(e[1]))
+    if k == "udone": return "k2v2::udone(%s, %s)" % (to_cpp(e[2], bound), k2.cpp_fn(e[1]))
     if k == "withq": return "unifex::with_query_value(%s, k2::get_q%d, %d)" % (to_cpp(e[3], bound), e[1], e[2])
     if k == "unstop": return "unifex::unstoppable(%s)" % to_cpp(e[1], bound)
-    if k == "mat": return "k2::mat(%s)" % to_cpp(e[1], bound)
-    if k == "dopt": return "k2::dopt(%s)" % to_cpp(e[1], bound)
+    if k == "mat": return "k2v2::mat(%s)" % to_cpp(e[1], bound)
+    if k == "dopt": return "k2v2::dopt(%s)" % to_cpp(e[1], bound)
     a = to_cpp(e[1], bound)
     if k == "letv":
         x = "x%d" % len(bound)
-        return "unifex::let_value(%s, [=](int& %s) { return %s; })" % (a, x, to_cpp(e[2], (x,) + bound))
+        return "unifex::let_value(%s, [=](k2v2::payload& p%s) { int %s = p%s.v; return %s; })" % (a, x, x, x, to_cpp(e[2], (x,) + bound))
     if k == "lete":
         x = "x%d" % len(bound)
         return "unifex::let_error(%s, [=](auto&& ep%s) { int %s = k2::code_of(ep%s); return %s; })" % (
             a, x, x, x, to_cpp(e[2], (x,) + bound))
     b = to_cpp(e[2], bound)
     if k == "letd": return "unifex::let_done(%s, [=]() { return %s; })" % (a, b)
-    if k == "seq": return "unifex::sequence(k2::voided(%s), %s)" % (a, b)
-    if k == "fin": return "unifex::finally(%s, k2::voided(%s))" % (a, b)
+    if k == "seq": return "unifex::sequence(k2v2::voided(%s), %s)" % (a, b)
+    if k == "fin": return "unifex::finally(%s, k2v2::voided(%s))" % (a, b)
     if k == "wall": return "k2v2::wall(%s, %s)" % (a, b)
     if k == "wany": return "k2v2::wany(%s, %s)" % (a, b)
-    if k == "swhen": return "unifex::stop_when(%s, k2::voided(%s))" % (a, b)
+    if k == "swhen": return "unifex::stop_when(%s, k2v2::voided(%s))" % (a, b)
     raise ValueError(k)
 
 
@@ -219,7 +246,7 @@ def gen_scripts(rng, e, n):
         return "@%d" % rng.randrange(NCTX) if multi and rng.random() < 0.7 else ""
     def ev(i):
         c = rng.random()
-        if c < 0.6: return "L%d:v%d%s" % (i, rng.randint(0, 12), at())
+        if c < 0.6: return "L%d:%s%d%s" % (i, "t" if rng.random() < 0.2 else "v", rng.randint(0, 12), at())
         if c < 0.8: return "L%d:e%d%s" % (i, rng.randint(30, 39), at())
         return "L%d:d%s" % (i, at())
     def rn():
@@ -260,7 +287,8 @@ def header_hash():
 
 
 def emit_tu(cases):
-    src = ["// k2v2.hpp %s" % header_hash(), '#include "k2v2.hpp"', ""]
+    hdr = "k2v2.hpp" if HDR_DIR == vlib.HARNESS else os.path.join(HDR_DIR, "k2v2.hpp")   # a private header by absolute path
+    src = ["// k2v2.hpp %s" % header_hash(), '#include "%s"' % hdr, ""]
     for i, e in enumerate(cases):
         src.append("static std::string case_%d(bool pre, const std::vector<k2v2::script_ev>& s) {" % i)
         src.append("  return k2v2::run_case([] { return %s; }, pre, s);" % to_cpp(e))
@@ -275,7 +303,7 @@ def canon(trace):
     """k2.canon (stop cascades sorted, model-only `leak` dropped) after removing the implementation-only
     `fin <id>` completion markers (they feed the monitor)."""
     body, _, tail = trace.partition(" # ")
-    evs = [x for x in body.split(";") if x and x != "|" and not x.startswith("fin ")]
+    evs = [x for x in body.split(";") if x and x != "|" and not x.startswith("fin ") and not x.startswith("plive ")]
     return k2.canon(";".join(evs) + " # " + tail)
 
 
@@ -289,7 +317,7 @@ def canon_weak(trace):
     body, _, tail = trace.partition(" # ")
     batches, cur = [], []
     for x in body.split(";"):
-        if not x or x.startswith("fin ") or x.startswith("leak "):
+        if not x or x.startswith("fin ") or x.startswith("leak ") or x.startswith("plive "):
             continue
         if x == "|":
             batches.append(cur); cur = []
@@ -346,7 +374,7 @@ def monitor(trace, e=None):
             return "C04: %s live stop-callback registration(s) on the receiver's token at completion" % m.group(1)
     if roots:
         after = evs[evs.index(roots[0]) + 1:]
-        bad = [x for x in after if not (x == "skip" or x == "root_dtor" or x.startswith("dtor ") or x.startswith("sdtor "))]
+        bad = [x for x in after if not (x == "skip" or x == "root_dtor" or x.startswith("dtor ") or x.startswith("sdtor ") or x.startswith("plive "))]
         if bad:
             return "C02: activity after the root completed: %r" % bad[:3]
     # per-leaf life cycle: start -> (stopseen)* -> fin -> dtor ; a leaf id may be re-started after its dtor
@@ -384,6 +412,8 @@ def monitor(trace, e=None):
     for x in evs:
         if x.startswith("sdtor_early") or x.startswith("sdtor_ns"):
             return "C02: schedule() operation state: " + x
+        if x.startswith("plive ") and x != "plive 0":
+            return "C02: %s tracked value object(s) alive after the root operation was destroyed" % x.split()[1]
     if e is not None:
         return monitor_ctx(e, evs)
     return ""
@@ -422,6 +452,33 @@ CORPUS = list(k2.CORPUS) + [
     ("fin", ("wany", ("leafn", 0), ("leafn", 1)), ("leaf", 2)),
     ("wany", ("just", 3), ("leaf", 0)),
     ("wany", ("jerr", 23), ("wany", ("leaf", 0), ("jdone",))),
+    # stage 4: a throwing value met by every kind of consumer
+    ("fin", ("leaf", 0), ("leaf", 1)),
+    ("fin", ("leaf", 0), ("letv", ("leaf", 1), ("jdone",))),
+    ("letv", ("leaf", 0), ("then", ("add", 1), ("var", 0))),
+    ("wall", ("leaf", 0), ("uerr", ("add", 1), ("leaf", 1))),
+    ("swhen", ("uerr", ("add", 2), ("leaf", 0)), ("leaf", 1)),
+    ("swhen", ("withq", 0, 3, ("udone", ("add", 2), ("leaf", 0))), ("leafn", 1)),
+    ("intov", ("uerr", ("add", 1), ("withq", 0, 5, ("leaf", 0)))),
+    ("intov", ("uerr", ("add", 1), ("leaf", 0))),
+    ("intov", ("seq", ("leaf", 0), ("uerr", ("mul", 2), ("leaf", 1)))),
+    ("intov", ("letd", ("leaf", 0), ("uerr", ("mul", 2), ("leaf", 1)))),
+    ("lete", ("letd", ("leaf", 0), ("leaf", 1)), ("then", ("add", 1), ("var", 0))),
+    ("lete", ("jerr", 21), ("udone", ("add", 3), ("leaf", 0))),
+    ("lete", ("unstop", ("uerr", ("add", 1), ("leaf", 0))), ("leaf", 1)),
+    ("dopt", ("leaf", 0)),
+    ("mat", ("leaf", 0)),
+    ("retry", 1, ("leaf", 0), ("leaf", 1)),
+    ("intov", ("retry", 1, ("uerr", ("throw", 55), ("leaf", 0)), ("leaf", 1))),
+    ("repeat", "b0", ("leaf", 0)),
+    ("lvss", 0, ("wall", ("leafr", 0, 0), ("leafn", 1))),
+    ("intov", ("lvss", 0, ("uerr", ("add", 4), ("leaf", 0)))),
+    ("wany", ("leaf", 0), ("leaf", 1)),
+    ("via", 100, 1, ("leaf", 0)),
+    ("on", 100, 1, ("leaf", 0)),
+    ("swhen", ("on", 100, 1, ("leaf", 0)), ("leaf", 1)),
+    ("then", ("add", 1), ("leaf", 0)),
+    ("leaf", 0),
     ("defer", ("letv", ("just", 5), ("then", ("add", 1), ("var", 0)))),
     ("letv", ("just", 7), ("defer", ("wall", ("var", 0), ("jfrom", ("add", 2))))),
 ]
@@ -455,7 +512,7 @@ def run_k2v2(chk, n_tus, cases_per_tu, scripts_per_case, size_range=(2, 8), cfg=
             while True:
                 g = gen(rng) if gen else Gen2(rng, wsa=cfg.endswith("20"))
                 e = g.expr(rng.randint(*size_range))
-                if not lvalue_lete(e):
+                if not lvalue_lete(e) and not throw_hits_noexcept(e):
                     break
             cases.append(e)
         tus.append(cases)
@@ -479,7 +536,8 @@ def run_k2v2(chk, n_tus, cases_per_tu, scripts_per_case, size_range=(2, 8), cfg=
     built = vlib.build_many(jobs)
     stats = chk.cov.setdefault("k2v2", {"programs": 0, "scripts": 0, "kinds": {}, "roots_completed": 0,
                                         "compile_failures": 0, "disagreements": 0, "dtor_events": 0,
-                                        "callback_order_only": 0, "sched_runs": 0, "ctx_nonzero_events": 0})
+                                        "callback_order_only": 0, "sched_runs": 0, "ctx_nonzero_events": 0,
+                                        "throwing_values": 0, "throws_observed": 0})
     for (name, cfgn, p, _, _), cases in zip(jobs, tus):
         exe, err = built[(name, cfgn)]
         if err:
@@ -508,6 +566,8 @@ def run_k2v2(chk, n_tus, cases_per_tu, scripts_per_case, size_range=(2, 8), cfg=
                 stats["roots_completed"] += 1
             stats["dtor_events"] += io.count("dtor ")
             stats["sched_runs"] += io.count("sdtor ")
+            stats["throwing_values"] += len(re.findall(r":t\d", sc))
+            stats["throws_observed"] += io.count("error 77")
             stats["ctx_nonzero_events"] += len(re.findall(r"ctx=[1-9]", io))
             mon = monitor(io, e) if not io.startswith("CRASH") else "crash: " + io[:200]
             ci, cm = (canon(io), canon(mo)) if not io.startswith("CRASH") else (io, mo)
@@ -538,7 +598,9 @@ def quick_corpus():
     """two translation units of hand-picked cases touching every stage (the whole CORPUS runs in the thorough tier)"""
     want = ["(swhen (leafn 0) (leafn 1))", "(letv (wall", "(dopt (wall", "(fin (seq", "(tvia 100 2", "(on 100 1 (via", "(wall (sched",
             "(letv (sched", "(lvss 0 (wall (leafr", "(lvss 0 (unstop", "(repeat b001", "(retry 2 (letv", "(retry 1 (wall", "(defer (letv",
-            "(wany (wall", "(fin (wany"]
+            "(wany (wall", "(fin (wany",
+            "(fin (leaf 0) (leaf 1))", "(lete (unstop", "(intov (uerr (add 1) (withq", "(swhen (uerr", "(wall (leaf 0) (uerr",
+            "(letv (leaf 0) (then", "(intov (retry", "(dopt (leaf 0))"]
     out = []
     for w in want:
         out += [c for c in CORPUS if to_model(c).startswith(w)][:1]
